@@ -251,11 +251,12 @@ def build(case):
             cube.extra_coords.add((f"n{i}0", f"n{i}1"), axes[0], SkyCoord(np.abs(v) / 8 * u.deg, v / 16 * u.deg))
         elif kind == "mq3":
             cube.extra_coords.add((f"n{i}0", f"n{i}1", f"n{i}2"), tuple(axes),
-                                  tuple(_vals(shape[a], seed + j) * u.m for j, a in enumerate(axes)),
+                                  tuple((_vals(shape[a], seed + j) * u.m).to(u.km if (seed + j) % 2 else u.m)      # (equivalent units, not all the same)
+                                        for j, a in enumerate(axes)),
                                   physical_types=(f"custom:n{i}0", f"custom:n{i}1", f"custom:n{i}2"))
         else:
             cube.extra_coords.add((f"n{i}0", f"n{i}1"), tuple(axes),
-                                  (_vals(n0, seed) * u.m, _vals(shape[axes[1]], seed + 1) * u.m),
+                                  (_vals(n0, seed) * u.m, (_vals(shape[axes[1]], seed + 1) * u.m).to(u.km if seed % 2 else u.m)),
                                   physical_types=(f"custom:n{i}0", f"custom:n{i}1"))
     return cube
 
